@@ -1,19 +1,6 @@
-import AdfObdd.Deps
+import AdfObdd.CountsDef
 import Mathlib.Tactic.Ring
 /-! prototype 34: model counts stand in the exact ratio of satisfying assignments (C13) -/
-
-/-- `modelcount_naive`: (counter-models, models, depth) -/
-def countF (s : Store) : Nat → Nat → Nat × Nat × Nat
-  | 0, _ => (0, 0, 0)
-  | fuel+1, t =>
-    if t = 1 then (0, 1, 0) else if t = 0 then (1, 0, 0) else
-    match s.nodes[t]? with
-    | none => (0, 0, 0)
-    | some n =>
-      let l := countF s fuel n.lo
-      let h := countF s fuel n.hi
-      let D := max l.2.2 h.2.2
-      (l.1 * 2 ^ (D - l.2.2) + h.1 * 2 ^ (D - h.2.2), l.2.1 * 2 ^ (D - l.2.2) + h.2.1 * 2 ^ (D - h.2.2), D + 1)
 
 /-- Shannon count of the assignments to `vs` (others taken from `base`) that satisfy `f` -/
 def sat (f : Asg → Bool) : Asg → List Nat → Nat
